@@ -380,24 +380,26 @@ func (ex *Exec) doUnOp(st *State, fr *Frame, u *ssa.UnOp) {
 			ex.assumeInv(st, et, v)
 			okv := Fresh("recvok", SBool)
 			if ci, cet := ex.chanInvOf(u.X); ci != nil {
-				st.assume(Implies(okv, ex.chanValueFact(st, fr, ci, v, cet)))
+				st.assume(Implies(okv, ex.chanValueFact(st, fr, ci, v, cet, u.X)))
 			}
 			if cv, ok := ex.val(st, fr, u.X).(Scalar); ok {
 				// ok == false happens only on a closed channel
 				st.assume(Or(okv, Select(st.heapGet(chanClosedClass, SArr(SInt, SBool)), cv.T)))
 			}
+			ex.viewReceived(st, fr, u.X, v, okv)
 			fr.Regs[u] = TupleV{[]Value{v, Scalar{okv}}}
 		} else {
 			v := freshValue("recv", u.Type())
 			ex.assumeInv(st, u.Type(), v)
 			// the value was sent (and satisfies the channel's invariant), or the channel is closed
 			if ci, cet := ex.chanInvOf(u.X); ci != nil {
-				fact := ex.chanValueFact(st, fr, ci, v, cet)
+				fact := ex.chanValueFact(st, fr, ci, v, cet, u.X)
 				if cv, ok := ex.val(st, fr, u.X).(Scalar); ok && !ex.chanOpenOf(u.X) {
 					fact = Or(fact, Select(st.heapGet(chanClosedClass, SArr(SInt, SBool)), cv.T))
 				}
 				st.assume(fact)
 			}
+			ex.viewReceived(st, fr, u.X, v, True)
 			fr.Regs[u] = v
 		}
 	default:
@@ -767,6 +769,40 @@ func (ex *Exec) doSlice(st *State, fr *Frame, x *ssa.Slice) {
 	}
 }
 
+// doSliceToArrayPointer: (*[N]T)(s) and - through the load that follows - [N]T(s). The conversion panics
+// when the slice is shorter than the array. Only the value idiom is modelled (every use of the pointer is
+// a load): the result points at a fresh array object holding a copy of the first N elements, which is
+// what the loads observe; a pointer that is kept or written through would alias the slice -> tool limit.
+func (ex *Exec) doSliceToArrayPointer(st *State, fr *Frame, x *ssa.SliceToArrayPointer) {
+	s := ex.val(st, fr, x.X).(SliceV)
+	at := under(x.Type().(*types.Pointer).Elem()).(*types.Array)
+	n := IntLit(at.Len())
+	g := Le(n, s.Len)
+	ex.emit(st, "safety", ex.srcLabel(fr.Fn, x.Pos(), "slice-to-array"), g, x.Pos(), []string{"C17"})
+	st.assume(g)
+	for _, r := range *x.Referrers() {
+		if u, ok := r.(*ssa.UnOp); !ok || u.Op != token.MUL {
+			if _, dbg := r.(*ssa.DebugRef); !dbg {
+				tool("slice-to-array pointer that is not only loaded from")
+			}
+		}
+	}
+	et := at.Elem()
+	av := freshValue("s2a", at).(ArrayV)
+	if !isStructT(et) && at.Len() <= 64 {
+		cls := "[]" + typeName(et)
+		for i, c := range comps(et) {
+			h := Select(st.heapGet(cls+c.Suffix, heapSort(2, c.Sort)), s.Arr)
+			for k := int64(0); k < at.Len(); k++ {
+				st.assume(Eq(Select(av.Comps[i], IntLit(k)), Select(h, Add(s.Off, IntLit(k)))))
+			}
+		}
+	}
+	ref := ex.alloc(st)
+	ex.storeComps(st, classOf(at), at, ref, av)
+	fr.Regs[x] = objPtr(ref, at)
+}
+
 // arrayAsBacking views a pointed-to array as a slice backing array. The array object and the
 // backing store are linked only at creation (sound for the SSA idioms: varargs temporaries and
 // buf[:] of a local), later writes through the array pointer are not mirrored -> tool limit if seen.
@@ -1042,11 +1078,18 @@ func (ex *Exec) syncMapInvOf(v ssa.Value) *Clause {
 }
 
 // syncMapFact evaluates a sync.Map content invariant for the entry (k, v).
-func (ex *Exec) syncMapFact(st *State, fr *Frame, c *Clause, k, v Value) *Term {
+// vsrc, when given, is the SSA operand the stored value comes from: a conversion from a narrower interface
+// type keeps that static type (so that typeis(v, I) can use it).
+func (ex *Exec) syncMapFact(st *State, fr *Frame, c *Clause, k, v Value, vsrc ...ssa.Value) *Term {
 	env := ex.loopEnv(st, fr)
 	anyT := types.NewInterfaceType(nil, nil)
 	env.vars["k"] = TV{k, anyT}
 	env.vars["v"] = TV{v, anyT}
+	if len(vsrc) == 1 {
+		if ci, ok := vsrc[0].(*ssa.ChangeInterface); ok {
+			env.vars["v"] = TV{v, ci.X.Type()}
+		}
+	}
 	return ex.evalBool(env, c.Expr)
 }
 
@@ -1073,10 +1116,175 @@ func (ex *Exec) chanOpenOf(v ssa.Value) bool {
 }
 
 // chanValueFact evaluates a channel invariant for the value val (bound to v).
-func (ex *Exec) chanValueFact(st *State, fr *Frame, c *Clause, val Value, et types.Type) *Term {
+// 'self' is the object whose field holds the channel (the clause may speak about its ghost view).
+func (ex *Exec) chanValueFact(st *State, fr *Frame, c *Clause, val Value, et types.Type, chv ssa.Value) *Term {
 	env := ex.loopEnv(st, fr)
 	env.vars["v"] = TV{val, et}
+	if fa := fieldLoadOf(chv); fa != nil {
+		env.vars["self"] = TV{ex.val(st, fr, fa.X), fa.X.Type()}
+	}
 	return ex.evalBool(env, c.Expr)
+}
+
+// fieldLoadOf: the field address an SSA value is loaded from (x.f), or taken as (&x.f); nil otherwise.
+func fieldLoadOf(v ssa.Value) *ssa.FieldAddr {
+	switch x := v.(type) {
+	case *ssa.FieldAddr:
+		return x
+	case *ssa.UnOp:
+		if x.Op == token.MUL {
+			fa, _ := x.X.(*ssa.FieldAddr)
+			return fa
+		}
+	}
+	return nil
+}
+
+// fieldSpecOf: the type block of the struct a field address points into, and the field's name.
+func (ex *Exec) fieldSpecOf(fa *ssa.FieldAddr) (*TypeSpec, string, string) {
+	if fa == nil {
+		return nil, "", ""
+	}
+	pt, ok := under(fa.X.Type()).(*types.Pointer)
+	if !ok {
+		return nil, "", ""
+	}
+	stt, ok := under(pt.Elem()).(*types.Struct)
+	if !ok {
+		return nil, "", ""
+	}
+	tn := typeName(pt.Elem())
+	return ex.Specs.Types[tn], tn, stt.Field(fa.Field).Name()
+}
+
+// syncViewOf: the ghost view declared for the sync.Map a call's receiver operand denotes.
+func (ex *Exec) syncViewOf(v ssa.Value) (*SyncView, string, *ssa.FieldAddr) {
+	fa := fieldLoadOf(v)
+	ts, tn, f := ex.fieldSpecOf(fa)
+	if ts == nil || ts.SyncView == nil {
+		return nil, "", nil
+	}
+	return ts.SyncView[f], tn, fa
+}
+
+// freeListOf: is the channel an SSA value denotes the free list of a viewed sync.Map of the same object.
+func (ex *Exec) freeListOf(chv ssa.Value) (*SyncView, *ssa.FieldAddr) {
+	fa := fieldLoadOf(chv)
+	ts, _, f := ex.fieldSpecOf(fa)
+	if ts == nil {
+		return nil, nil
+	}
+	for _, sv := range ts.SyncView {
+		if sv.Free == f {
+			return sv, fa
+		}
+	}
+	return nil, nil
+}
+
+// The free-list protocol of a viewed sync.Map, as two linear tokens per owning object and path:
+// 'taken' is the key most recently received from the free list and not yet stored, 'released' the key
+// most recently deleted from the map and not yet put back. Storing needs the taken token for that key,
+// sending on the free list the released one. With this discipline a key is never at once in the map and on
+// the free list, which is what lets a receive assume that the key it got is absent from the map.
+const viewTakenClass, viewReleasedClass = "viewtok.taken", "viewtok.released"
+
+func (ex *Exec) ownerTerm(st *State, fr *Frame, fa *ssa.FieldAddr) *Term {
+	if p, ok := ex.val(st, fr, fa.X).(*PtrV); ok {
+		return ptrTerm(p)
+	}
+	tool("owner of a viewed field is not a pointer")
+	return nil
+}
+
+// viewReceived: a value was received from chv (under cond); if chv is a free list this takes the token.
+func (ex *Exec) viewReceived(st *State, fr *Frame, chv ssa.Value, v Value, cond *Term) {
+	sv, fa := ex.freeListOf(chv)
+	if sv == nil || ex.pure != nil {
+		return
+	}
+	sc, ok := v.(Scalar)
+	if !ok {
+		return
+	}
+	o := ex.ownerTerm(st, fr, fa)
+	h := st.heapGet(viewTakenClass, SArr(SInt, SInt))
+	st.heapSet(viewTakenClass, Store(h, o, Ite(cond, sc.T, Select(h, o))))
+}
+
+// viewSent: a value is sent on chv; if chv is a free list the sender must hold the released token for it.
+func (ex *Exec) viewSent(st *State, fr *Frame, chv ssa.Value, v Value, pos token.Pos) {
+	sv, fa := ex.freeListOf(chv)
+	if sv == nil || ex.pure != nil {
+		return
+	}
+	sc, ok := v.(Scalar)
+	if !ok {
+		return
+	}
+	o := ex.ownerTerm(st, fr, fa)
+	h := st.heapGet(viewReleasedClass, SArr(SInt, SInt))
+	ex.emit(st, "pre", ex.srcLabel(fr.Fn, pos, "freelist-put-back-deleted-key"), And(Le(Zero, sc.T), Eq(Select(h, o), sc.T)), pos, ex.topProps(st))
+	st.heapSet(viewReleasedClass, Store(h, o, IntLit(-1)))
+}
+
+// syncViewCall models Store / Load / LoadAndDelete / Delete on a viewed sync.Map as updates of the ghost view.
+func (ex *Exec) syncViewCall(st *State, fr *Frame, sv *SyncView, tn string, fa *ssa.FieldAddr, m string, args []Value, pos token.Pos) Value {
+	kt := types.Universe.Lookup(sv.Key)
+	if kt == nil {
+		tool("syncview: unknown key type %s", sv.Key)
+	}
+	keyT := kt.Type()
+	o := ex.ownerTerm(st, fr, fa)
+	key, ok := args[1].(IfaceV)
+	if !ok {
+		tool("syncview: key is not an interface value")
+	}
+	props := ex.topProps(st)
+	isK := Eq(key.Tag, IntLit(tagOf(keyT)))
+	ex.emit(st, "pre", ex.srcLabel(fr.Fn, pos, "syncview-key-type"), isK, pos, props)
+	st.assume(isK)
+	k := ex.unbox(st, key, keyT).(Scalar).T
+	hasC, tagC, valC := tn+".$"+sv.Has, tn+".$"+sv.Tag, tn+".$"+sv.Val
+	hh := st.heapGet(hasC, SArr(SInt, SArr(SInt, SBool)))
+	th := st.heapGet(tagC, SArr(SInt, SArr(SInt, SInt)))
+	vh := st.heapGet(valC, SArr(SInt, SArr(SInt, SInt)))
+	present := Select(Select(hh, o), k)
+	entry := IfaceV{Ite(present, Select(Select(th, o), k), Zero), Ite(present, Select(Select(vh, o), k), Zero)}
+	switch m {
+	case "Store":
+		v, ok := args[2].(IfaceV)
+		if !ok {
+			tool("syncview: stored value is not an interface value")
+		}
+		if sv.Free != "" {
+			tk := st.heapGet(viewTakenClass, SArr(SInt, SInt))
+			ex.emit(st, "pre", ex.srcLabel(fr.Fn, pos, "store-under-a-key-taken-from-the-free-list"), And(Le(Zero, k), Eq(Select(tk, o), k)), pos, props)
+			st.heapSet(viewTakenClass, Store(tk, o, IntLit(-1)))
+		}
+		for _, c := range []string{hasC, tagC, valC} {
+			ex.checkFrameGhostField(st, c, o, pos)
+		}
+		st.heapSet(hasC, Store(hh, o, Store(Select(hh, o), k, True)))
+		st.heapSet(tagC, Store(th, o, Store(Select(th, o), k, v.Tag)))
+		st.heapSet(valC, Store(vh, o, Store(Select(vh, o), k, v.Val)))
+		return TupleV{}
+	case "Load":
+		return TupleV{[]Value{entry, Scalar{present}}}
+	case "LoadAndDelete", "Delete":
+		ex.checkFrameGhostField(st, hasC, o, pos)
+		st.heapSet(hasC, Store(hh, o, Store(Select(hh, o), k, False)))
+		if sv.Free != "" {
+			rl := st.heapGet(viewReleasedClass, SArr(SInt, SInt))
+			st.heapSet(viewReleasedClass, Store(rl, o, Ite(present, k, IntLit(-1))))
+		}
+		if m == "Delete" {
+			return TupleV{}
+		}
+		return TupleV{[]Value{entry, Scalar{present}}}
+	}
+	tool("sync.Map.%s on a viewed map is not modelled", m)
+	return nil
 }
 
 // ---------- go / select ----------
@@ -1165,17 +1373,21 @@ func (ex *Exec) doSelect(st *State, fr *Frame, s *ssa.Select) {
 		for i, state := range s.States {
 			if state.Dir == types.RecvOnly {
 				if ci, cet := ex.chanInvOf(state.Chan); ci != nil {
-					fact := ex.chanValueFact(st, fr, ci, tv.V[k], cet)
+					fact := ex.chanValueFact(st, fr, ci, tv.V[k], cet, state.Chan)
 					if cv, ok := ex.val(st, fr, state.Chan).(Scalar); ok && !ex.chanOpenOf(state.Chan) {
 						// the value was sent, or the channel is closed
 						fact = Or(fact, Select(st.heapGet(chanClosedClass, SArr(SInt, SBool)), cv.T))
 					}
 					st.assume(Implies(Eq(idx, IntLit(int64(i))), fact))
 				}
+				ex.viewReceived(st, fr, state.Chan, tv.V[k], Eq(idx, IntLit(int64(i))))
 				k++
 			} else if state.Dir == types.SendOnly {
+				if sv, _ := ex.freeListOf(state.Chan); sv != nil {
+					tool("send on a free list inside a select is not modelled")
+				}
 				if ci, cet := ex.chanInvOf(state.Chan); ci != nil {
-					ex.emit(st, "pre", ex.srcLabel(fr.Fn, state.Pos, "chan-send"), ex.chanValueFact(st, fr, ci, ex.val(st, fr, state.Send), cet), state.Pos, ex.topProps(st))
+					ex.emit(st, "pre", ex.srcLabel(fr.Fn, state.Pos, "chan-send"), ex.chanValueFact(st, fr, ci, ex.val(st, fr, state.Send), cet, state.Chan), state.Pos, ex.topProps(st))
 				}
 			}
 		}
